@@ -751,6 +751,20 @@ func L2Errors() []MethodCase {
 		m.Errors = []ErrorDef{{Name: "e_api"}}
 		out = append(out, MethodCase{M: m, SvcErrors: []ErrorDef{{Name: "e_api"}}, APIErrors: []ErrorDef{{Name: "e_api"}}, APIHTTPErrs: []Resp{{Error: "e_api", Status: 429}}, Own: true})
 	}
+	// two errors defined at API level with API-level responses; the service gives one of them a
+	// response of its own: the method refers to both, in both orders (each error must resolve
+	// its response independently of the one resolved before it)
+	for _, order := range []string{"svc-mapped-first", "api-mapped-first"} {
+		m := mk(map[string]string{"level": "api+service-response", "type": "default", "status": "distinct", "order": order})
+		m.Errors = []ErrorDef{{Name: "e_x"}, {Name: "e_api"}}
+		if order == "api-mapped-first" {
+			m.Errors = []ErrorDef{{Name: "e_api"}, {Name: "e_x"}}
+		}
+		out = append(out, MethodCase{M: m, Own: true,
+			APIErrors:   []ErrorDef{{Name: "e_x"}, {Name: "e_api"}},
+			APIHTTPErrs: []Resp{{Error: "e_x", Status: 409}, {Error: "e_api", Status: 429}},
+			SvcHTTPErrs: []Resp{{Error: "e_x", Status: 412}}})
+	}
 	// API-level error and response
 	{
 		m := mk(map[string]string{"level": "api", "type": "default", "status": "distinct"})
